@@ -46,3 +46,6 @@ for sid in ids:
     results[sid] = {"outcome": outcome, "tier": tier, "wall_s": round(time.time() - t0, 1), "report": head}
     print(sid, outcome, "%.0fs" % (time.time() - t0), head[:2])
     json.dump(results, open(resf, "w"), indent=1, sort_keys=True)
+
+# regen after restore: the Gen files and the driver must describe the unchanged tree again
+subprocess.call("/verif/go/bin/go2lean -repo /repo -out /verif/lean/MocModel/Gen -pin /verif/go/go2lean/pinned.json -report /tmp/genrep.json >/dev/null 2>&1", shell=True)
